@@ -1048,6 +1048,24 @@ try:
     for p, v in e5.items():
         if p in e1 and v != e1[p]: bad.append(("file carried through two rewrites re-dated", p, e1[p], v))
     if sorted(e1)[2] not in e5: bad.append("second delete dropped a file that was not named")
+    # the survivor's recorded checksum travels through the rewrites: a survivor whose bytes are swapped for a sibling's must be refused
+    def full(t, snap):
+        out = {}
+        for m in t.file_manager.read_manifest_list_file(snap.manifest_list.lstrip("/")):
+            for df in t.file_manager.read_manifest_file(m.manifest_path.lstrip("/")):
+                out[df.file_path] = df
+        return out
+    f5 = full(t, m5.snapshots[-1])
+    surv = sorted(e1)[2]
+    if f5[surv].checksum is None and any(v.checksum for v in f5.values()):
+        bad.append(("a carried file lost its recorded checksum in a manifest rewrite", surv))
+    other = [q for q in f5 if q != surv][0]
+    shutil.copyfile(os.path.join(root, "t", other.lstrip("/")), os.path.join(root, "t", surv.lstrip("/")))
+    try:
+        got = sorted(r["a"] for r in load_table(os.path.join(root, "t")).scan())
+        bad.append(("a survivor whose content was replaced is read without a corruption error", got))
+    except Exception:
+        pass
 finally:
     shutil.rmtree(root, ignore_errors=True)
 print("replay carry/delete-exact ->", bad[:3] or "ok")
